@@ -190,17 +190,87 @@ func (c *Compiler) CompileFiles(files []File) {
 			return true
 		})
 	})
-	each(token.CONST, func(g *ast.GenDecl) {
-		if !late[g] {
-			c.constDecl(g, true)
-		}
-	})
-	// type names first (all files), bodies afterwards: forward references among types work
+	// Type names are declared first (all files); then type bodies and constant declarations are compiled in
+	// dependency order (a typed constant needs its type initialised, an array type needs its length constant),
+	// source order otherwise.
 	var allTypes []*typePend
 	each(token.TYPE, func(g *ast.GenDecl) { allTypes = append(allTypes, c.typeDeclStart(g, true, imps)...) })
+	type item struct {
+		names []string // names this item defines
+		refs  map[string]bool
+		isTyp bool
+		run   func()
+		done  bool
+	}
+	var items []*item
+	refsOf := func(n ast.Node) map[string]bool {
+		m := map[string]bool{}
+		ast.Inspect(n, func(x ast.Node) bool {
+			if id, ok := x.(*ast.Ident); ok {
+				m[id.Name] = true
+			}
+			return true
+		})
+		return m
+	}
 	for _, p := range allTypes {
-		c.setFile(p.file, p.imps)
-		c.typeDeclFinish(p)
+		p := p
+		items = append(items, &item{names: []string{p.spec.Name.Name}, refs: refsOf(p.spec.Type), isTyp: true, run: func() {
+			c.setFile(p.file, p.imps)
+			c.typeDeclFinish(p)
+		}})
+	}
+	for i, f := range files {
+		for _, d := range f.AST.Decls {
+			if g, ok := d.(*ast.GenDecl); ok && g.Tok == token.CONST && !late[g] {
+				g, i, f := g, i, f
+				var names []string
+				for _, sp := range g.Specs {
+					for _, n := range sp.(*ast.ValueSpec).Names {
+						names = append(names, n.Name)
+					}
+				}
+				items = append(items, &item{names: names, refs: refsOf(g), run: func() {
+					c.setFile(f.Name, imps[i])
+					c.constDecl(g, true)
+				}})
+			}
+		}
+	}
+	definedBy := map[string]*item{}
+	for _, it := range items {
+		for _, n := range it.names {
+			definedBy[n] = it
+		}
+	}
+	for left := len(items); left > 0; left-- {
+		var pick *item
+		for _, it := range items {
+			if it.done {
+				continue
+			}
+			ready := true
+			for r := range it.refs {
+				if d := definedBy[r]; d != nil && d != it && !d.done && !(it.isTyp && d.isTyp) {
+					ready = false
+					break
+				}
+			}
+			if ready {
+				pick = it
+				break
+			}
+		}
+		if pick == nil {
+			for _, it := range items {
+				if !it.done {
+					pick = it
+					break
+				}
+			}
+		}
+		pick.run()
+		pick.done = true
 	}
 	for _, p := range allTypes {
 		if p.last {
